@@ -305,6 +305,9 @@ func runC15(c *core.Ctx) core.Meta {
 	})
 	checkMetaStores(c, p, prov, "R15.4", "topPort", map[string]string{"Dst": `\.reqFromTop\.Meta\(\)\.Src$`})
 
+	// R15.7 nothing cached in a field survives a flush (flushstate.go)
+	checkFlushResets(c, "R15.7", robPkg, "ReorderBuffer", []string{"ReorderBuffer.runPipeline"}, []string{"ReorderBuffer.processControlMsg"}, 8)
+
 	// R15.5 flush
 	st5 := c.Rule("R15.5", "flush/restart clear the list and the lookup table together; the pipeline runs only while not flushing; unknown responses are consumed", 3)
 	initFns := p.Direct(func(in ssa.Instruction) bool { return isListCall(in, "Init") })
